@@ -20,7 +20,6 @@ NOT modelled / not exercised (also stated in the model header):
 from __future__ import annotations
 
 import copy
-import json
 from collections import OrderedDict
 
 from lib import coqrun
@@ -29,7 +28,7 @@ from lib.tocoq import val
 
 PROP = "C07"
 PROPS_FILE = "props/C07.v"
-GEN: list[str] = []
+GEN = ["gen_manifest_ops"]
 CORRESPONDENCES = [
     "manifest:get_manifest_for_rank~model",
     "manifest:handle_sharded_tensor_elasticity~model",
@@ -222,6 +221,9 @@ def corpus_specs():
         [S("w"), ["S", 1, [[0, [[0]]], [2, [[4]]]]], None], [S("a/b"), ["S", 2, [[1, [[0]]]]], None],
         [["i", 3], ["S", 3, [[0, [[1]]]]], None], [["b", 0], ["S", 4, [[2, [[0]]]]], None],
         [S("lst"), ["l", [[R(5), None], [["S", 6, [[0, [[0]]], [1, [[0]]]]], None]]], None], [S("r"), R(7), None]]]]]})
+    # C07_elasticity_legacy_refuted's snapshot: a sharded tensor under the key 'a/b' and one inside a list, W = 1
+    out.append({"W": 1, "yaml": 0, "statefuls": [["m", ["d", 0, 0, [
+        [S("a/b"), ["S", 1, [[0, [[0]]]]], None], [S("l"), ["l", [[["S", 2, [[0, [[0]]]]], None]]], None]]]]]})
     return out
 
 
@@ -488,7 +490,7 @@ def typed_key_for_token(sc: Scenario, parent_path: str, token: str):
 def expected_structure(sc: Scenario, rank, reqs, uid):
     """What the property promises load_state_dict receives on restoring rank `rank`, from the generator's ground
     truth: the rank's own saved tree (rank 0's for a new rank) with private leaves kept only for their owner,
-    sharded leaves kept iff requested, containers kept.  Nodes: ("leaf", uid) | ("S", path) | ["L", path, [node]] |
+    sharded leaves kept iff requested, containers kept.  Nodes: ("leaf", uid) | ("S", path) | ["L", path, [(index, node)]] |
     ["D", ordered, path, [(key, node)]].  Returns ({stateful key: node}, added) where `added` maps a parent path to
     [(typed key, path)] for requested sharded tensors this rank did not save."""
     from torchsnapshot.flatten import _encode
@@ -509,7 +511,7 @@ def expected_structure(sc: Scenario, rank, reqs, uid):
             # added back by handle_sharded_tensor_elasticity (at the end of the parent's keys): see `added`
             return ("S", path) if (path in reqset and rank < W) else None
         if isinstance(o, list):
-            return ["L", path, [v for v in (walk(x, f"{path}/{i}") for i, x in enumerate(o)) if v is not None]]
+            return ["L", path, [(i, v) for i, v in ((i, walk(x, f"{path}/{i}")) for i, x in enumerate(o)) if v is not None]]
         kvs = [(k, walk(x, f"{path}/{_encode(str(k))}")) for k, x in o.items()]
         return ["D", isinstance(o, OrderedDict), path, [(k, v) for k, v in kvs if v is not None]]
     exp = {key: walk(tree, _encode(key)) for key, tree in sc.trees[base].items()}
@@ -546,6 +548,9 @@ def compare_structure(actual, node, added, out):
         return
     if node[0] == "L":
         _, path, items = node
+        # a list keeps the saved order of whatever is delivered; a re-added sharded item sits at its saved index
+        items = [v for _, v in sorted(items + [(int(p.rpartition("/")[2]), ("S", p)) for _, p in added.get(path, [])],
+                                      key=lambda iv: iv[0])]
         if type(actual) is not list:
             out.append(("C07:delivered-structure:container-type", f"{path}: list became {type(actual).__name__}"))
         elif len(actual) != len(items):
@@ -783,7 +788,7 @@ def synthetic_specs(ctx: Ctx):
     rng = ctx.rng
     for sp in corpus_specs():
         yield "corpus", sp
-    for i in range(ctx.n(45, 420)):
+    for i in range(ctx.n(110, 2400)):
         W = rng.choice([1, 2, 2, 3, 3, 4, 5, 6])
         yield "random", Gen(rng, W).spec()
 
@@ -1100,9 +1105,10 @@ def collect_tensor_ids(o, acc):
 
 def e2e_pairs(ctx: Ctx):
     if not ctx.thorough:
-        return [(W, W2) for W in range(1, 5) for W2 in range(1, 5)]
+        pairs = [(W, W2) for W in range(1, 5) for W2 in range(1, 5)]
+        return pairs + ctx.rng.sample(pairs, 8)
     pairs = [(W, W2) for W in range(1, 7) for W2 in range(1, 7)]
-    return pairs + ctx.rng.sample(pairs, 24)
+    return pairs + ctx.rng.sample(pairs, 36)
 
 
 def check_e2e(ctx: Ctx, res: Result, with_model: bool):
@@ -1142,16 +1148,24 @@ def check_e2e(ctx: Ctx, res: Result, with_model: bool):
 
 # =========================================================================== the legacy witness, replayed on the real code
 def check_legacy_witness(res: Result):
-    """C07_remove_entry_legacy_refuted's witness on the CURRENT code: a private leaf under the key 'a/b' (and '%',
-    True) must no longer make get_manifest_for_rank raise for a new rank"""
+    """the witnesses of the _refuted theorems on the CURRENT code:
+    C07_remove_entry_legacy_refuted - a private leaf under the key 'a/b' (and '%', True) must no longer make
+    get_manifest_for_rank raise for a new rank;
+    C07_elasticity_legacy_refuted - a new rank requesting the sharded tensor under 'a/b' and the one inside a list
+    must get both delivered (through the real inflate)"""
     spec = corpus_specs()[0]
     sc = Scenario(spec)
     m, _, err = real_get(sc.metadata, 1)
-    res.case({"kind": "legacy-witness"}, nontrivial=True)
+    res.case({"kind": "legacy-witness", "commit": "489d382"}, nontrivial=True)
     if err is not None:
         res.failures.append(Failure(f"C07:get_manifest_for_rank-raises:{type(err).__name__}:new-rank",
                                     f"the pre-fix witness still fails: {err!r}"[:300],
                                     {"kind": "synthetic", "spec": spec, "rank": 1, "reqs": []}))
+    spec = corpus_specs()[3]
+    sc = Scenario(spec)
+    reqs = ["m/a%2Fb", "m/l/0"]
+    res.case({"kind": "legacy-witness", "commit": "bb9e810"}, nontrivial=True)
+    record(res, oracle_synthetic(sc, 1, reqs, Uids()), {"kind": "synthetic", "spec": spec, "rank": 1, "reqs": reqs})
 
 
 def correspond(ctx: Ctx) -> Result:
